@@ -12,7 +12,7 @@ def run(ctx):
     meta = ctx.drive(out, shards=16)
     traces = vlib.glob_traces(out)
     bad, st = ctx.accept(ACC, ACC_CFG, traces, heap="4g", timeout=2400)
-    if st.get("segs", 0) != meta["segments"] or (not meta.get("timed_out") and st.get("decodes", 0) != meta["strings"]):
+    if st.get("segs", 0) != meta["segments"] or (not bad and not meta.get("timed_out") and st.get("decodes", 0) != meta["strings"]):
         raise vlib.Infra("acceptor saw %s segments / %s decodes, driver wrote %s" % (st.get("segs"), st.get("decodes"), meta["segments"]))
     vlib.add_bad_segments(ctx, traces, bad, truncate_hist=False)
     ctx.cov.update(
